@@ -3,6 +3,7 @@ package sim
 import (
 	"fmt"
 	"path/filepath"
+	"strings"
 
 	"verifharness/proto"
 	"verifharness/simrt"
@@ -26,6 +27,7 @@ type HistConfig struct {
 	PConverge      float64
 	PGlobals       float64
 	PFailAfterEdit float64 // motif: edit, then a failing All run
+	PTwoPasses     float64 // two Execute calls with different global tags on one executor
 	PCancel        float64 // the caller's context is cancelled at some callback
 	PWarm          float64 // before a run, the same process runs the same module in a scratch copy (another directory)
 	PRetag         float64 // in-place change of a declaration's tags (never combined with mid-run edits)
@@ -33,6 +35,8 @@ type HistConfig struct {
 	PReal          float64 // a world for the real devpkg generators
 	PMute          float64 // a generator that now renders nothing for one package (with or without ErrIgnore)
 	PDepOutside    float64 // without All: select a package whose dependencies are not selected
+	PLinkOut       float64 // generated files of a package are moved elsewhere and linked in
+	PCwd           float64 // gengo is started in a package directory, not in the module root
 }
 
 func schedOf(policy string, seed uint64) simrt.Schedule {
@@ -84,6 +88,14 @@ func (w *histWorld) drawRun(r *Rng, cfg HistConfig) *RunOp {
 	if len(gens) == 1 {
 		gens = append(gens, w.gens[1])
 	}
+	if r.P(cfg.PTwoPasses) && (args.Force || !args.All) {
+		// a driver that loads once and runs two passes with different global tags on one executor
+		run := &RunOp{Args: args, Gens: gens, Sched: drawSched(r), Fresh: r.P(0.5), HasFirstGlobals: true, FirstGlobals: drawGlobals(r, w.names)}
+		if run.Args.Globals == nil {
+			run.Args.Globals = drawGlobals(r, w.names)
+		}
+		return run
+	}
 	if r.P(cfg.PMute) {
 		// the generator's behaviour changes between runs (as when its input tags or its code change):
 		// for one package it now renders nothing - with ErrIgnore from one type (the previous file must
@@ -105,7 +117,25 @@ func (w *histWorld) drawRun(r *Rng, cfg HistConfig) *RunOp {
 			args.Entrypoint = spell(r, w.m, []int{Pick(r, importers)})
 		}
 	}
-	return &RunOp{Args: args, Gens: gens, Sched: drawSched(r), Fresh: r.P(0.5)}
+	run := &RunOp{Args: args, Gens: gens, Sched: drawSched(r), Fresh: r.P(0.5)}
+	if r.P(cfg.PCwd) {
+		// started inside a package directory (a go:generate line, "cd cmd/app && gengo ...")
+		var dirs []string
+		for _, p := range w.m.Pkgs {
+			if !p.InSub && p.Dir != "" {
+				dirs = append(dirs, p.Dir)
+			}
+		}
+		if len(dirs) > 0 {
+			run.Cwd = Pick(r, dirs)
+			var eps []string
+			for _, pi := range ResolveEntrypoints(w.m, run.Args.Entrypoint) {
+				eps = append(eps, w.m.ImportPath(pi))
+			}
+			run.Args.Entrypoint = eps
+		}
+	}
+	return run
 }
 
 // muteGen returns a copy of g that renders nothing for package pi; with
@@ -190,7 +220,7 @@ func (w *histWorld) injectFault(r *Rng, run *RunOp, kind string) {
 			run.Faults = append(run.Faults, proto.Fault{ExecSeq: -1, Kind: "os.open", Path: w.pkgFile(pi, f.Name), Phase: "load", Nth: 1, Do: "errno:" + Pick(r, []string{"EACCES", "EIO", "EMFILE"})})
 		}
 	case "kill":
-		run.Faults = append(run.Faults, proto.Fault{ExecSeq: r.Intn(250), Do: Pick(r, []string{"kill", "kill", "kill-after:1"})})
+		run.Faults = append(run.Faults, proto.Fault{ExecSeq: r.Intn(250), Do: Pick(r, []string{"kill", "kill", "kill-after:1", "signal:TERM", "signal:INT"})})
 	case "cancel":
 		// the caller's context is cancelled at some callback (gengo may ignore that or fail, but must not
 		// return nil from a run it cut short)
@@ -257,6 +287,7 @@ func DrawHistory(r *Rng, cfg HistConfig) (*Scenario, *histWorld) {
 			run := w.drawRun(r, cfg)
 			run.Args.All, run.Args.Force = true, false
 			run.Args.Entrypoint = []string{"./..."}
+			run.Cwd = ""
 			for _, g := range run.Gens {
 				if isScripted(&g) {
 					run.Faults = append(run.Faults, proto.Fault{ExecSeq: -1, Kind: "gen", Gen: g.Name, Nth: r.Intn(2), Do: Pick(r, []string{"gen-error", "gen-unparseable"})})
@@ -299,6 +330,13 @@ func DrawHistory(r *Rng, cfg HistConfig) (*Scenario, *histWorld) {
 			} else {
 				ops = append(ops, Op{Kind: "corruptsum", K: r.Intn(64),
 					How: Pick(r, []string{"drop-line", "alter-hash", "truncate", "garbage", "swap-hashes", "crlf", "dup-line-stale", "empty"})})
+			}
+		case r.P(cfg.PLinkOut):
+			ops = append(ops, Op{Kind: "linkout", K: r.Intn(len(m.Pkgs))})
+			if r.P(0.7) {
+				// and the package is edited, so that it is generated again
+				pi := ops[len(ops)-1].K
+				ops = append(ops, Op{Kind: "touch", K: pi, Path: m.Pkgs[pi].Files[0].Name, Note: "after linkout"})
 			}
 		case r.P(cfg.PUnhashable):
 			pi := r.Intn(len(m.Pkgs))
@@ -467,7 +505,7 @@ func runHistory(c *CheckCtx, i int, r *Rng, cfg HistConfig) error {
 // SimC06: dispatch of GenerateType/GenerateAliasType/Defer over the tag lattice
 // and declaration kinds, under adversarial map orders.
 func SimC06(c *CheckCtx, i int, r *Rng) error {
-	return runHistory(c, i, r, HistConfig{MinOps: 1, MaxOps: 4, PAll: 0.6, PForce: 0.5, PGlobals: 0.5, PSubsetGens: 0.2, PEdit: 0.1, PRetag: 0.3, PCancel: 0.15, PWarm: 0.05})
+	return runHistory(c, i, r, HistConfig{MinOps: 1, MaxOps: 4, PAll: 0.6, PForce: 0.5, PGlobals: 0.5, PSubsetGens: 0.2, PEdit: 0.1, PRetag: 0.3, PCancel: 0.15, PWarm: 0.05, PTwoPasses: 0.25, PGenFault: 0.15})
 }
 
 // SimC07: gengo only touches its own output files.
@@ -477,11 +515,53 @@ func SimC07(c *CheckCtx, i int, r *Rng) error {
 		return SimC08(c, i, r)
 	}
 	return runHistory(c, i, r, HistConfig{MinOps: 3, MaxOps: 7, PAll: 0.6, PForce: 0.3, PGlobals: 0.2, PSubsetGens: 0.5, PEdit: 0.15, PStale: 0.25,
-		PSumOps: 0.05, PBreak: 0.08, PGenFault: 0.12, PIOFault: 0.12, PKill: 0.1, PConverge: 0.2, PMute: 0.35, PDepOutside: 0.5, PReal: 0.1, PUniform: 0.3, PCancel: 0.05, PWarm: 0.1})
+		PSumOps: 0.05, PBreak: 0.08, PGenFault: 0.12, PIOFault: 0.12, PKill: 0.1, PConverge: 0.2, PMute: 0.35, PDepOutside: 0.5, PReal: 0.1, PUniform: 0.3, PCancel: 0.05, PWarm: 0.1, PLinkOut: 0.1, PCwd: 0.2})
 }
 
 // SimC08: the gengo.sum cache against the reference model.
 func SimC08(c *CheckCtx, i int, r *Rng) error {
+	if i%10 == 7 {
+		return simWide(c, i, r)
+	}
 	return runHistory(c, i, r, HistConfig{MinOps: 4, MaxOps: 9, PAll: 0.85, PForce: 0.15, PGlobals: 0.1, PSubsetGens: 0.2, PEdit: 0.3, PStale: 0.05,
-		PSumOps: 0.2, PUnhashable: 0.06, PBreak: 0.04, PGenFault: 0.1, PIOFault: 0.12, PKill: 0.08, PMidEdit: 0.1, PConverge: 0.6, PFailAfterEdit: 0.12, PMute: 0.1, PReal: 0.08, PUniform: 0.4, PCancel: 0.04, PWarm: 0.06})
+		PSumOps: 0.2, PUnhashable: 0.06, PBreak: 0.04, PGenFault: 0.1, PIOFault: 0.12, PKill: 0.08, PMidEdit: 0.1, PConverge: 0.6, PFailAfterEdit: 0.12, PMute: 0.1, PReal: 0.08, PUniform: 0.4, PCancel: 0.04, PWarm: 0.06, PCwd: 0.1})
+}
+
+// simWide: a module with many local packages (a size no small world reaches: code that switches
+// strategy above a threshold, e.g. a worker pool, is only exercised here) and very uneven package
+// directories. Runs, an edit of one package, runs: exactly that package is regenerated, and gengo.sum
+// carries every package's own load-time hash.
+func simWide(c *CheckCtx, i int, r *Rng) error {
+	base := "zz_generated"
+	n := r.Range(17, 26)
+	m := &ModuleSpec{ModPath: "example.com/wide", GoVer: "1.24"}
+	for k := 0; k < n; k++ {
+		dir := fmt.Sprintf("p%02d", k)
+		p := &PkgSpec{Dir: dir, Name: dir, Anchor: fmt.Sprintf("Anchor%d", k), DocTags: []Tag{{Marker: "+", Key: "gengo:x"}}}
+		p.Files = []*SrcFile{{Name: "doc.go", Decls: []*Decl{{Kind: "struct", Name: p.Anchor}}}}
+		m.Pkgs = append(m.Pkgs, p)
+	}
+	// uneven hashing time: a few directories hold large assets
+	for k := 0; k < 3; k++ {
+		pi := r.Intn(n)
+		m.Pre = append(m.Pre, PreFile{Path: fmt.Sprintf("p%02d/assets-%d.bin", pi, k), Content: strings.Repeat(fmt.Sprintf("%064d", k), (1+r.Intn(4))*16384)})
+	}
+	scfg := DrawScriptConfig(r)
+	scfg.PRefs, scfg.PDocRef = 0, 0
+	gens := []proto.GenScript{Probe(), DrawScript(r, scfg, m, "x")}
+	mk := func(fresh bool) *RunOp {
+		return &RunOp{Args: proto.GenArgs{Entrypoint: []string{"./..."}, Base: base, All: true}, Gens: gens, Sched: drawSched(r), Fresh: fresh}
+	}
+	var ops []Op
+	ops = append(ops, Op{Kind: "run", Run: mk(true)}, Op{Kind: "run", Run: mk(true)}, Op{Kind: "converge", K: 3})
+	for k := 0; k < 2; k++ {
+		ops = append(ops, Op{Kind: "touch", K: r.Intn(n), Path: "doc.go"}, Op{Kind: "run", Run: mk(r.P(0.5))}, Op{Kind: "run", Run: mk(true)})
+	}
+	sc := &Scenario{Kind: "history", Module: m, Base: base, UniformGens: true, Variants: []Variant{{Name: "history", Ops: ops}}}
+	if _, err := c.RunScenario(sc, i); err != nil {
+		return err
+	}
+	c.Env.Stats.Add("probe/wide-module", 1)
+	c.Env.Stats.Fingerprint(fmt.Sprintf("wide/%d pkgs", n))
+	return nil
 }
